@@ -407,7 +407,7 @@ func init() {
 	core.Register(&core.Prop{
 		ID:        "C06",
 		Technique: "append-contract monitor: real Marshal called with prefixes of several lengths/capacities, re-used buffers, by value and by pointer, repeatedly; results compared with Marshal(nil,v)",
-		Rule: "generated types (every fifth wrapped into a struct that Go stores directly in the interface word: single pointer / map / nested single-pointer field) x boundary-biased values incl. the zero value and values that encode to nothing; the values of a case are encoded once more, last to first, at its end; " +
+		Rule: "generated types (every fifth wrapped into a struct that Go stores directly in the interface word: single pointer / map / nested single-pointer field) x boundary-biased values incl. the zero value and values that encode to nothing; the values of a case are encoded once more, last to first, at its end; every 257th case marshals a value with a million-element first field by value and through a dropped pointer while the collector runs and four goroutines allocate values of the same shape; " +
 			"per value: 2 repetitions, by-value call, 12 (prefix length, spare capacity) shapes with a snapshot of the destination, one call into a buffer re-used along the case, in-place mutation of the same variable followed by calls into non-nil buffers; every third case ends with 4 goroutines marshalling the case's values at once by value and by pointer. Bytes compared exactly, or through the model's canonical parse when the value holds a multi-entry map. distinct = (type, configuration, value-shape) hashes with non-zero content",
 		Assume: []string{"model.Canon for comparing encodings that differ only in map entry order"},
 		Plan: func(tier string) []core.Lane {
